@@ -13,7 +13,16 @@ import (
 // genSeq builds a small sequence value and its elements rendered as strings.
 func genSeq(r *rand.Rand, th *starlark.Thread) (v starlark.Value, elems []string, kind string) {
 	n := r.Intn(5)
-	switch r.Intn(5) {
+	switch r.Intn(6) {
+	case 5:
+		// an iterable that has no Len method at all: string.codepoints() (string.elems() has one)
+		s := "wxyz"[:n]
+		m, _ := starlark.String(s).Attr("codepoints")
+		it, _ := starlark.Call(th, m, nil, nil)
+		for i := 0; i < len(s); i++ {
+			elems = append(elems, fmt.Sprintf("%q", s[i:i+1]))
+		}
+		return it, elems, "string.codepoints"
 	case 0:
 		var l []starlark.Value
 		for i := 0; i < n; i++ {
@@ -81,49 +90,69 @@ func famSeq(e *env, r *rand.Rand) {
 		// ---- enumerate(x, start)
 		seq, elems, kind := genSeq(r, e.th)
 		start := genStart(r)
-		e.distinctTuple("enumerate", start, starlark.String(kind), starlark.MakeInt(len(elems)))
-		e.c.Cover("enumerate_iterables", kind)
-		S := mkInt(r, start)
-		args := starlark.Tuple{seq, S}
-		if start.Sign() == 0 && r.Intn(2) == 0 {
-			args = args[:1]
-		}
-		o := do(func() (starlark.Value, error) { return starlark.Call(e.th, enumB, args, nil) })
-		desc := func() string { return fmt.Sprintf("enumerate(<%s of %d>, %s)", kind, len(elems), start) }
-		e.judged++
-		cls := "int"
-		last := new(big.Int).Set(start) // largest index produced
-		if len(elems) > 0 {
-			last.Add(start, bi(int64(len(elems)-1)))
-		}
-		if !fitsI64(start) || !fitsI64(last) {
-			cls = "start-near-int64-limit"
-		}
-		if !e.checkPanic("enumerate", cls, o, desc) {
-			if o.err != nil {
-				e.mix(0xE)
-				if fitsI64(start) && fitsI64(last) {
-					e.violation("C10 fails enumerate "+cls, desc()+" failed: "+errStr(o.err), map[string]any{"expr": desc(), "error": errStr(o.err), "variant": e.c.Variant})
+		judgeEnum := func(seq starlark.Value, elems []string, kind string, start *big.Int) {
+			e.distinctTuple("enumerate", start, starlark.String(kind), starlark.MakeInt(len(elems)))
+			e.c.Cover("enumerate_iterables", kind)
+			S := mkInt(r, start)
+			args := starlark.Tuple{seq, S}
+			if start.Sign() == 0 && r.Intn(2) == 0 {
+				args = args[:1]
+			}
+			o := do(func() (starlark.Value, error) { return starlark.Call(e.th, enumB, args, nil) })
+			desc := func() string { return fmt.Sprintf("enumerate(<%s of %d>, %s)", kind, len(elems), start) }
+			e.judged++
+			cls := "int"
+			last := new(big.Int).Set(start) // largest index produced
+			if len(elems) > 0 {
+				last.Add(start, bi(int64(len(elems)-1)))
+			}
+			if !fitsI64(start) || !fitsI64(last) {
+				cls = "start-near-int64-limit"
+			}
+			if !e.checkPanic("enumerate", cls, o, desc) {
+				if o.err != nil {
+					e.mix(0xE)
+					if fitsI64(start) && fitsI64(last) {
+						e.violation("C10 fails enumerate "+cls, desc()+" failed: "+errStr(o.err), map[string]any{"expr": desc(), "error": errStr(o.err), "variant": e.c.Variant})
+					} else {
+						e.c.Count("failed_as_allowed", 1)
+					}
 				} else {
-					e.c.Count("failed_as_allowed", 1)
+					var parts []string
+					for i, el := range elems {
+						parts = append(parts, fmt.Sprintf("(%s, %s)", new(big.Int).Add(start, bi(int64(i))), el))
+					}
+					want := "[" + strings.Join(parts, ", ") + "]"
+					got := valStr(o.v)
+					e.mix(uint64(len(got)))
+					if got != want {
+						e.violation("C10 wrong enumerate "+cls, fmt.Sprintf("%s = %s, exact result is %s", desc(), got, want),
+							map[string]any{"expr": desc(), "got": got, "want": want, "variant": e.c.Variant})
+					} else {
+						e.sample(desc, got, want)
+					}
 				}
-			} else {
-				var parts []string
-				for i, el := range elems {
-					parts = append(parts, fmt.Sprintf("(%s, %s)", new(big.Int).Add(start, bi(int64(i))), el))
-				}
-				want := "[" + strings.Join(parts, ", ") + "]"
-				got := valStr(o.v)
-				e.mix(uint64(len(got)))
-				if got != want {
-					e.violation("C10 wrong enumerate "+cls, fmt.Sprintf("%s = %s, exact result is %s", desc(), got, want),
-						map[string]any{"expr": desc(), "got": got, "want": want, "variant": e.c.Variant})
-				} else {
-					e.sample(desc, got, want)
+			}
+			e.c.Cover("ops", "enumerate")
+		}
+		judgeEnum(seq, elems, kind, start)
+		if n == 0 {
+			// constant grid (round-5 extension): every iterable kind x every length 0-4 x starts whose last index
+			// crosses the int64 limits, so that the known-length and the unknown-length paths both carry past 2^63
+			for _, k := range []string{"list", "tuple", "range", "dict", "string.elems", "string.codepoints"} {
+				for tries := 0; tries < 40; tries++ {
+					sq, el, kd := genSeq(r, e.th)
+					if kd != k || len(el) == 0 {
+						continue
+					}
+					for d := int64(0); d < int64(len(el))+1; d++ {
+						judgeEnum(sq, el, kd, new(big.Int).Sub(maxI64, bi(d)))
+						judgeEnum(sq, el, kd, new(big.Int).Add(minI64, bi(d)))
+					}
+					e.c.Cover("enumerate_grid", fmt.Sprintf("%s/%d", kd, len(el)))
 				}
 			}
 		}
-		e.c.Cover("ops", "enumerate")
 
 		// ---- len
 		{
